@@ -25,6 +25,9 @@ import (
 )
 
 func racePart(seed uint64, tier string, scratch string) (map[string]interface{}, int, int) {
+	if os.Getenv("PANASIM_SKIP_RACE") != "" { // development aid for mutcheck.sh (no -race build of the scratch tree)
+		return map[string]interface{}{"race_subcheck": "skipped (PANASIM_SKIP_RACE)"}, 0, 0
+	}
 	budget := envFloat("VERIF_RACE_QUICK_S", 20)
 	if tier == "thorough" {
 		budget = envFloat("VERIF_RACE_THOROUGH_S", 300)
